@@ -10,6 +10,7 @@ import AlgopyVerif.Model.NthDeriv
 import AlgopyVerif.Model.Pullback
 import AlgopyVerif.Model.Tracer
 import AlgopyVerif.Model.Index
+import AlgopyVerif.Model.Drivers
 import Lean.Data.Json
 /-!
 # Request dispatch of the model driver (JSON codec + operation table)
@@ -467,6 +468,28 @@ def handleTracer (j : Json) : Except String Json := do
       | .const c => Json.mkObj [("c", toJson c)]).toArray)]
   pure (Json.mkObj [("count", toJson s.count), ("tracing", toJson s.tracing), ("nodes", Json.arr nodes.toArray)])
 
+/-- forward drivers: seed tables and extraction -/
+def handleDrivers (j : Json) : Except String Json := do
+  let what ← j.getObjValAs? String "what"
+  let N ← j.getObjValAs? Nat "N"
+  let ratList (k : String) : Except String (List Rat) := do
+    let a ← j.getObjValAs? (Array String) k
+    a.toList.mapM fun s => match parseRat s with | some v => pure v | none => throw "bad rat"
+  let showM (m : List (List Rat)) : Json := Json.arr (m.map fun r => Json.arr (r.map fun v => Json.str (showRat v)).toArray).toArray
+  match what with
+  | "hess_dirs" => pure (Json.mkObj [("r", showM (hessDirs N))])
+  | "jac_dirs" => pure (Json.mkObj [("r", showM (jacDirs N))])
+  | "hess_vec_dirs" => do
+    let v ← ratList "v"
+    pure (Json.mkObj [("r", showM (hessVecDirs N v))])
+  | "extract_hessian" => do
+    let c2 ← ratList "c2"
+    pure (Json.mkObj [("r", showM ((List.range N).map fun n => (List.range N).map fun m => extractHessian N c2 n m))])
+  | "extract_hess_vec" => do
+    let c2 ← ratList "c2"
+    pure (Json.mkObj [("r", Json.arr ((List.range N).map fun n => Json.str (showRat (extractHessVec N c2 n))).toArray)])
+  | _ => throw s!"bad-what {what}"
+
 def handlePiv (j : Json) : Except String Json := do
   let piv ← j.getObjValAs? (Array Nat) "piv"
   let N := piv.size
@@ -475,6 +498,7 @@ def handlePiv (j : Json) : Except String Json := do
     ("det", toJson (piv2detF piv.toList))])
 
 def handle (j : Json) : Except String Json := do
+  if (j.getObjValAs? String "op").toOption == some "drivers" then return (← handleDrivers j)
   if (j.getObjValAs? String "op").toOption == some "tracer" then return (← handleTracer j)
   if (j.getObjValAs? String "op").toOption == some "nth" then return (← handleNth j)
   if (j.getObjValAs? String "op").toOption == some "piv" then return (← handlePiv j)
